@@ -144,6 +144,8 @@ def _cancel_safe(m):
 
 
 EXTRA = _RTR + [
+    # ---- C06
+    ('rtrInitialVersion', 'src/rtr/client.rs', r'const INITIAL_VERSION: u8 = (\d+);', 'nat', ['C06']),
     # ---- C08
     ('rtrMaxVersion', SERVER, r'pub const MAX_VERSION: u8 = (\d+);', 'nat', ['C08', 'C06']),
     ('rtrRecvCancelSafe', SERVER, r'async fn recv\(&mut self\) -> Result<Option<Query>, io::Error> \{([\s\S]*?)if let Err\(err\) = self\.check_version\(header\)', _cancel_safe, ['C08']),
